@@ -155,20 +155,12 @@ func halfPipe(src net.Conn, dst net.Conn,
 	buf := make([]byte, 32*1024)
 	for {
 		nr, er := src.Read(buf)
-		if er != nil {
-			if nr > len(buf) {
-				log.Errorf("unexpected read len error - up:%t (%dB): %s", isUpload, nr, er)
-			}
-			if e := generalizeErr(er); e != nil {
-				if isUpload {
-					stats.ClientConnErr = e.Error()
-				} else {
-					stats.CovertConnErr = e.Error()
-				}
-			}
-			break
+		if er != nil && nr > len(buf) {
+			log.Errorf("unexpected read len error - up:%t (%dB): %s", isUpload, nr, er)
 		}
-		if nr > 0 {
+		// A Read may return n > 0 bytes together with an error (io.Reader contract): forward
+		// those bytes before acting on the error, as io.Copy does.
+		if nr > 0 && (er == nil || nr <= len(buf)) {
 			if nr > len(buf) && er == nil {
 				log.Errorf("unexpected read len error - up:%t (%dB)", isUpload, nr)
 			}
@@ -199,6 +191,17 @@ func halfPipe(src net.Conn, dst net.Conn,
 				break
 			}
 
+		}
+
+		if er != nil {
+			if e := generalizeErr(er); e != nil {
+				if isUpload {
+					stats.ClientConnErr = e.Error()
+				} else {
+					stats.CovertConnErr = e.Error()
+				}
+			}
+			break
 		}
 
 		// refresh stall timeout - set both because it only happens on write so if connection is
